@@ -9,11 +9,13 @@ from . import an
 class Pred:
     """A predicate instance: key (hashable), and the roots its truth depends on."""
 
-    __slots__ = ("key", "deps")
+    __slots__ = ("key", "deps", "variant_true")
 
-    def __init__(self, key, deps):
+    def __init__(self, key, deps, variant_true=None):
         self.key = key
         self.deps = deps  # list of AP
+        # for discriminant switches: interpret "variant == variant_true" as the boolean value of the predicate
+        self.variant_true = variant_true
 
 
 def ap_prefix(a, b):
@@ -177,6 +179,15 @@ def valuations_at(body, site_bb, classify, max_states=20000):
                             fact = frozenset(n for v_, n in names.items() if v_ not in listed)
                         else:
                             fact = frozenset(names.get(v_, v_) for v_ in vals_here)
+                        if p.variant_true is not None:
+                            if fact == frozenset([p.variant_true]):
+                                fact = True
+                            elif p.variant_true not in fact:
+                                fact = False
+                            else:
+                                continue
+                            if not pol:
+                                fact = not fact
                     else:
                         continue
                     old = newval.get(p.key)
